@@ -116,4 +116,9 @@ func (P) Gen(r *core.Rand, tier string, emit func([]string)) {
 		}
 		emit(ops)
 	}
+	// last, so that the cases above are what they were before this dimension existed: a MITM configuration
+	// whose handshake error callback was cleared, and a tunnel handshake that fails (seeded C03-R)
+	for i := 0; i < nj/5; i++ {
+		emit(pxy.GenNoCallbackCase(r, prt))
+	}
 }
